@@ -382,6 +382,8 @@ class C03(Check):
         for spec, req in cases:
             if not self._in_domain(spec, req):
                 continue
+            if len({f.key for f in findings}) >= 8 or len(findings) >= 60:
+                break           # enough replays; the run is failing anyway
             evals += 1
             try:
                 bad = zoo.watchdog(lambda: self._oracle(spec, req), 20)
